@@ -98,6 +98,36 @@ def type_attr(t: TypeV, attr: str) -> Any:
     return None
 
 
+class MaxV:
+    """offset + max/min(items): items are affine symbolic numbers (absint.Lin)"""
+    def __init__(self, kind: str, items: tuple, offset: Any = 0):
+        self.kind, self.items, self.offset = kind, tuple(items), offset
+
+    def __repr__(self):
+        return f"{self.offset!r} + {self.kind}({', '.join(map(repr, self.items))})"
+
+
+def _lin(v: Any):
+    from .absint import Lin
+    if isinstance(v, Lin):
+        return v
+    if isinstance(v, (int, float)) and not isinstance(v, bool):
+        return Lin.c(v)
+    return None
+
+
+def sym_add(l: Any, r: Any, sign: int = 1) -> Any:
+    """l + sign*r over concrete numbers, affine symbolic numbers and max/min terms"""
+    from .absint import Lin
+    if isinstance(l, MaxV) and _lin(r) is not None:
+        return MaxV(l.kind, l.items, _lin(l.offset) + (_lin(r) if sign > 0 else -_lin(r)))
+    if isinstance(r, MaxV) and _lin(l) is not None and sign > 0:
+        return MaxV(r.kind, r.items, _lin(r.offset) + _lin(l))
+    if (isinstance(l, Lin) or isinstance(r, Lin)) and _lin(l) is not None and _lin(r) is not None:
+        return _lin(l) + _lin(r) if sign > 0 else _lin(l) - _lin(r)
+    return UNKNOWN
+
+
 class LocalFn:
     def __init__(self, node, env, owner):
         self.node, self.env, self.owner = node, env, owner
@@ -251,7 +281,10 @@ class Interp:
                 self.block(st.orelse, env, depth)
         elif isinstance(st, ast.While):
             n = 0
-            while self.truthy(self.ev(st.test, env, depth)) and n < 3:
+            while self.truthy(self.ev(st.test, env, depth)):
+                if n >= 3:
+                    self.undecided.append("while loop cut after 3 iterations")
+                    break
                 n += 1
                 try:
                     self.block(st.body, env, depth)
@@ -459,7 +492,7 @@ class Interp:
                 return l + r
             if _is_num(l) and _is_num(r):
                 return l + r if isinstance(e.op, ast.Add) else l - r
-            return UNKNOWN
+            return sym_add(l, r, 1 if isinstance(e.op, ast.Add) else -1)
         if isinstance(e, (ast.ListComp, ast.GeneratorExp)):
             return self.comp(e, env, depth)
         if isinstance(e, ast.Subscript):
@@ -543,6 +576,16 @@ class Interp:
                 return list(args[0])
             if nm == "bool" and len(args) == 1:
                 return self.truthy(args[0])
+            if nm in ("max", "min") and args:
+                items = args[0] if len(args) == 1 and isinstance(args[0], list) else args if len(args) > 1 else None
+                if items and all(_is_num(x) for x in items):
+                    return max(items) if nm == "max" else min(items)
+                if items and all(_lin(x) is not None for x in items):
+                    ls = [_lin(x) for x in items]
+                    return ls[0] if len(ls) == 1 else MaxV(nm, tuple(ls), 0)
+                return UNKNOWN
+            if nm in ("float", "int") and len(args) == 1 and isinstance(args[0], bool):
+                return int(args[0])
             if nm in ("float", "int") and len(args) == 1 and isinstance(args[0], (SVal, int, float)):
                 return args[0]
             if nm == "sum" and len(args) == 1 and isinstance(args[0], list) and all(isinstance(x, SVal) for x in args[0]):
@@ -589,6 +632,30 @@ class Interp:
                 return [[i, x] for i, x in enumerate(args[0])]
             if nm == "zip" and all(isinstance(a, list) for a in args) and args:
                 return [list(t) for t in zip(*args)]
+        # methods of a modelled dataclass instance: inlined with self = that object
+        if isinstance(c.func, ast.Attribute) and depth < self.max_depth:
+            recv_v = self.ev(c.func.value, env, depth) if not (isinstance(c.func.value, ast.Name) and c.func.value.id == "self"
+                                                               and not isinstance(env.get("self"), Obj)) else None
+            if isinstance(recv_v, Obj):
+                cands = [ci for ci in self.prog.classes.values() if ci.name == recv_v.cls]
+                target = self.prog.lookup_method(cands[0], nm) if len(cands) == 1 else None
+                if target is not None and isinstance(target.node, (ast.FunctionDef, ast.AsyncFunctionDef)) and target not in self.fn_stack[-3:]:
+                    a = target.node.args
+                    names = [x.arg for x in a.posonlyargs + a.args]
+                    cenv = {names[0]: recv_v} if names else {}
+                    for p_, d in zip(names[len(names) - len(a.defaults):], a.defaults):
+                        cenv[p_] = self.ev(d, {}, depth)
+                    for p_, v in zip(names[1:], args):
+                        cenv[p_] = v
+                    for k, v in kwargs.items():
+                        cenv[k] = v
+                    self.fn_stack.append(target)
+                    saved_cls = self.cls
+                    try:
+                        return self.call_body(target, cenv, depth + 1)
+                    finally:
+                        self.fn_stack.pop()
+                        self.cls = saved_cls
         # module-level helper functions of the repository: inlined
         if isinstance(c.func, ast.Name) and c.func.id not in env and depth < self.max_depth and self.fn_stack:
             full = self.prog.resolve_name(self.fn_stack[-1].module, c.func.id)
@@ -625,7 +692,7 @@ class Interp:
                             if b.fullname != owner.fullname and nm in b.methods and b in self.prog.mro(owner)[1:]:
                                 target = b.methods[nm]
                                 break
-                if target is not None and target not in self.fn_stack[-3:]:
+                if target is not None and (target not in self.fn_stack[-3:] or self.allow_recursion):
                     params = target.params[1:]
                     cenv = {"self": env.get("self", Sym("self"))}
                     for k, v in env.items():
@@ -694,6 +761,7 @@ def _install():
     Interp._hashable = _hashable
     Interp.sym_result = None
     Interp.on_start = None
+    Interp.allow_recursion = False
     Interp.prelude_len = 0
 
 
